@@ -185,7 +185,8 @@ def atmos_stubs():
     return {"openaerostruct.common.atmos_comp": st}, ac
 
 
-def atmosphere(rep, tier, timeout):
+def atmosphere(rep, tier, timeout, kinds=None):
+    """kinds: restrict the obligation kinds (C01 reuses the derivative-consistency part)"""
     from symoas import diff
     from symoas.harness import CompRunner
 
@@ -264,6 +265,8 @@ def atmosphere(rep, tier, timeout):
             return min(T, P, rho, a) <= 0, "altitude %.6g: T,P,rho,a = %r" % (h, (T, P, rho, a))
         return None, "no numeric replay for kind %s" % kind
 
+    if kinds is not None:
+        obs = [o for o in obs if o.meta.get("kind") in kinds]
     # every path has its own conditions but shares the lowerer (expressions are small)
     run_obligations(rep, "AtmosComp[%d intervals]" % len(paths), obs, timeout, replay=replay,
                     family=lambda ob: ob.meta["family"] + (" near %s" % _interval_name(ob, x) if ob.meta.get("kind") in ("gas", "sound") else ""),
